@@ -44,3 +44,12 @@ package mdns
 //@ func (a *AvahiProvider).processAddedService(service, cb) [C08]
 //@   requires cb != nil && a.serviceElements != nil
 //@   modifies *
+
+// ======================= lock discipline (C20) =======================
+//@ guarded MdnsManager.entries by MdnsManager.mux
+//@ guarded MdnsManager.isAnnounced by MdnsManager.muxAnnounced
+// entries stored in m.entries are shared with copyMdnsEntries: their address list is only touched under m.mux
+//@ guarded api.MdnsEntry.Addresses by owner MdnsManager.mux
+//@ guarded AvahiProvider.autoReconnect, AvahiProvider.manualShutdown, AvahiProvider.setupSuccessful, AvahiProvider.listenerRunning, AvahiProvider.mdnsServiceData, AvahiProvider.resolveCB, AvahiProvider.avEntryGroup, AvahiProvider.avBrowser by AvahiProvider.mux
+//@ guarded AvahiProvider.serviceElements by AvahiProvider.muxEl
+//@ guarded ZeroconfProvider.zc, ZeroconfProvider.cancel by ZeroconfProvider.mux
